@@ -128,12 +128,37 @@ pub fn cmd_ciphers(args: &[String]) -> i32 {
         if let Some(p) = n.find("_WITH_") { qs.push(format!("{}_WITH{}", &n[..p], &n[p..])); }
         if let Some(p) = n[4..].find('_') { qs.push(format!("{}{}", &n[..4 + p + 1], &n[4..])); }
     }
+    // an id written as text is not a name
+    for id in [0x0000u16, 0x002f, 0x1301, 0xc02f, 0xcca8, 0xffff] {
+        for t in [format!("0x{:04x}", id), format!("0X{:04X}", id), format!("{:04x}", id), format!("{:x}", id), format!("{}", id), format!("0x+{:x}", id),
+                  format!("TLS_{:04x}", id), format!("{{0x{:02X},0x{:02X}}}", id >> 8, id & 0xff)] { qs.push(t); }
+    }
     qs.sort();
     qs.dedup();
     for s in &qs {
         let a = TlsCipherSuite::from_name(s).map(|c| format!("{:04x}", c.id.0)).unwrap_or_else(|| "none".into());
         let b = <&TlsCipherSuite>::try_from(s.as_str()).ok().map(|c| format!("{:04x}", c.id.0)).unwrap_or_else(|| "none".into());
         writeln!(out, "{}", json!({"kind": "name", "s": s, "from_name": a, "try_from": b})).unwrap();
+    }
+    // the answer depends on the characters, not on where they live: prefixes and suffixes BORROWED from the registry's own
+    // static strings (same start address as a real name, shorter length) are looked up like any other string
+    {
+        let listed: std::collections::HashSet<&str> = names.iter().map(|s| s.as_str()).collect();
+        for id in 0..=65535u16 {
+            if let Some(c) = TlsCipherSuite::from_id(id) {
+                let n: &'static str = c.name;
+                for k in [0usize, 1, 4, n.len() / 2, n.len() - 1] {
+                    for sl in [&n[..k], &n[n.len() - k..]] {
+                        if listed.contains(sl) { continue; }
+                        let a = TlsCipherSuite::from_name(sl).map(|c| format!("{:04x}", c.id.0)).unwrap_or_else(|| "none".into());
+                        let b = <&TlsCipherSuite>::try_from(sl).ok().map(|c| format!("{:04x}", c.id.0)).unwrap_or_else(|| "none".into());
+                        if a != "none" || b != "none" {
+                            writeln!(out, "{}", json!({"kind": "name", "s": format!("{}", sl), "from_name": a, "try_from": b})).unwrap();
+                        }
+                    }
+                }
+            }
+        }
     }
     // the string domain is infinite: beyond the structured perturbations, a seeded pseudo-random sweep of names that are NOT in the
     // registry (random edits of registry names and random token strings); all must be answered with "none".  With N queries a lookup
@@ -208,8 +233,14 @@ pub fn cmd_ext(args: &[String]) -> i32 {
                 input.extend_from_slice(&payload);
                 ext_code(&calls::call(name, &a, &input).unwrap(), ty, payload.len(), false)
             });
-            writeln!(out, "{}", json!({"kind": "dispatch", "which": which, "plen": payload.len(), "rle": rle_strings(codes)})).unwrap();
+            writeln!(out, "{}", json!({"kind": "dispatch", "which": which, "plen": payload.len(), "trail": 0, "rle": rle_strings(codes)})).unwrap();
         }
+        // the same extension followed by another one (what a dispatcher sees inside a list): verdict and consumption are the same
+        let codes = (0..=65535u32).map(|ty| {
+            let input = vec![(ty >> 8) as u8, ty as u8, 0, 1, 0, 0, 23, 0, 0];
+            ext_code(&calls::call(name, &a, &input).unwrap(), ty, 1, false)
+        });
+        writeln!(out, "{}", json!({"kind": "dispatch", "which": which, "plen": 1, "trail": 4, "rle": rle_strings(codes)})).unwrap();
     }
     let tagp = [(0u32, "parse_tls_extension_sni"), (1, "parse_tls_extension_max_fragment_length"), (5, "parse_tls_extension_status_request"),
         (10, "parse_tls_extension_elliptic_curves"), (11, "parse_tls_extension_ec_point_formats"), (13, "parse_tls_extension_signature_algorithms"),
